@@ -18,7 +18,7 @@ R6 client validation : the extension-input conversions precede (cut) the authent
                  empty / undecodable / unlisted key; pre-hashed input not 32 bytes).
 Not decided: that the SHA-256/HMAC crates compute those functions.
 """
-from . import core, flow, names, summary
+from . import core, flow, names, normal, summary
 from .framework import where, short, api_name
 from .common import AUTH, CLIENT, ceremony, find_aggs
 from .c02 import has, is_call, find, sub, closure_ret
@@ -47,6 +47,7 @@ def run(chk):
     chk.configs = ["all-features"]
     chk.explanation = __doc__
     S = summary.Summaries(p)
+    N = normal.Normalizer(p, S)
 
     # ---------------- R1
     ms = fn(p, "extensions::prf::make_salt")
@@ -228,19 +229,31 @@ def run(chk):
     ss = fn(p, "hmac_secret::select_salts")
     if chk.require("R4 select_salts", "R4|select_salts", ss, "passkey_authenticator", "select_salts not found"):
         chk.touched(ss)
-        rows = S.local_outcomes(ss)
-        per_cred = [o for o in rows if o.variant[:1] == ("Some",) and any(t[0] == "discr" and is_call(t[1], "Iterator::find") and l == ("in", "1") for t, l, f, w in o.conds)]
-        dflt = [o for o in rows if o.variant[:1] == ("Some",) and o not in per_cred]
+        rows = normal.rows(S, ss, N, expand=False)
+        # the table in normal form: which stored entry feeds the salts, and under which presence tests
+        is_find = lambda x: is_call(x, "Iterator::find") and has(x[2][0], lambda y: y == ("field", ("param", 2), "eval_by_credential"))
+        is_eval = lambda x: x == ("field", ("param", 2), "eval")
+        is_ebc = lambda x: x == ("field", ("param", 2), "eval_by_credential")
+        somes = [o for o in rows if o.variant[:1] == ("Some",)]
+        nones = [o for o in rows if o.variant[:1] == ("None",)]
+        per_cred = [o for o in somes if has(o.value, is_find)]
+        dflt = [o for o in somes if o not in per_cred]
         ok1 = bool(per_cred)
         for o in per_cred:
-            fnd = find(o.value, lambda x: is_call(x, "Iterator::find"))
+            fnd = find(o.value, is_find)
             pred = closure_ret(p, fnd[2][1]) if fnd else None
-            okp = pred is not None and has(pred, lambda x: is_call(x, "PartialEq::eq")) and has(pred, lambda x: x == ("param", 1)) and fnd[2][0][0] == "field" and has(fnd[2][0], lambda x: x == ("field", ("param", 2), "eval_by_credential"))
-            ok1 = ok1 and okp and not has(o.value, lambda x: x == ("field", ("param", 2), "eval"))
-        ok2 = bool(dflt) and all(has(o.value, lambda x: x == ("field", ("param", 2), "eval")) for o in dflt)
-        # default only when no per-credential entry matched
-        ok3 = all(not any(t[0] == "discr" and is_call(t[1], "Iterator::find") and l == ("in", "1") for t, l, f, w in o.conds) for o in dflt)
-        chk.ob("R4 select_salts", "R4|per-credential-first-then-default", ok1 and ok2 and ok3, where(ss), "%d per-credential rows (key == credential id), %d default rows (eval)" % (len(per_cred), len(dflt)))
+            okp = pred is not None and has(pred, lambda x: is_call(x, "PartialEq::eq")) and has(pred, lambda x: x == ("param", 1))
+            matched = any(flow.asserts_ok(t, l, is_find) for t, l, f, w in o.conds)
+            ok1 = ok1 and okp and matched and not has(o.value, is_eval)
+        # the default entry is used only when no per-credential entry matched (map absent, or no key equals the id) and exists
+        ok2 = bool(dflt)
+        for o in dflt:
+            no_match = any(flow.asserts_fail(t, l, is_find) or flow.asserts_fail(t, l, is_ebc) for t, l, f, w in o.conds)
+            ok2 = ok2 and has(o.value, is_eval) and no_match and any(flow.asserts_ok(t, l, is_eval) for t, l, f, w in o.conds)
+        # nothing is returned only when neither exists
+        ok3 = bool(nones) and all(any(flow.asserts_fail(t, l, is_eval) for t, l, f, w in o.conds) and any(flow.asserts_fail(t, l, is_find) or flow.asserts_fail(t, l, is_ebc) for t, l, f, w in o.conds) for o in nones)
+        chk.ob("R4 select_salts", "R4|per-credential-first-then-default", ok1 and ok2 and ok3, where(ss),
+               "%d per-credential rows (key == credential id: %s), %d default rows (only without a match: %s), %d empty rows (only without either: %s)" % (len(per_cred), ok1, len(dflt), ok2, len(nones), ok3))
     gp = p.method(AUTH, "get_prf")
     ge = p.method(AUTH, "get_extensions")
     if gp is not None and ge is not None:
@@ -274,7 +287,7 @@ def run(chk):
             if o.variant[:2] == ("Ok", "Some"):
                 en = find(o.value, lambda x: isinstance(x, tuple) and len(x) == 4 and x[0] == "agg" and x[1].endswith("AuthenticatorPrfMakeOutputs"))
                 e = dict(en[3]).get("enabled") if en else None
-                has_creds = [l for t, l, f, w in o.conds if t == ("discr", ("param", 2))]
+                has_creds = [l for t, l, f, w in o.conds if flow.is_discr(t, ("param", 2))]
                 if e == ("const", 1):
                     n_en += 1
                     ok = ok and has_creds and has_creds[0] == ("in", "1")
